@@ -308,6 +308,25 @@ pub fn record(seed: u64, tier: &str, out_path: &str) {
                 }
             }
         }
+        // (b2) a LONG life: a batch that fills the upper levels, then many batches that never reach them (single leaves,
+        //      as the classic responder of a mostly-IETF server sees, or nothing at all), then a multi-leaf batch again.
+        //      The counts sit at the wrap points of 8- and 16-bit counters (a generation stamp, a use count).
+        for &idle in &[255usize, 256, 65_535, 65_536] {
+            writeln!(out, "{}", json!({"ev": "new", "prof": p.tag(), "node_w": prof.node_w, "root_w": prof.root_w})).unwrap();
+            let mut tree = MerkleTree::new(version_of(p));
+            for (k, n) in [9usize, 5, 12].iter().enumerate() {
+                let (leaves, distinct) = gen_leaves(&mut rng, *n, 0);
+                let ev = observe_batch(&mut tree, prof, &leaves, distinct, &mut rng, false);
+                writeln!(out, "{}", ev).unwrap();
+                batches += 1;
+                // `idle` resets in all until the next observed batch
+                let _ = guarded(|| tree.reset());
+                if k < 2 {
+                    let one = rng.bytes(64);
+                    let _ = guarded(|| for j in 1..idle { if j % 3 != 0 { tree.push_leaf(&one); let _ = tree.compute_root(); } tree.reset(); });
+                }
+            }
+        }
         // (c) random longer sequences
         let seqs = if thorough { 300 } else { 40 };
         for _ in 0..seqs {
